@@ -1,6 +1,7 @@
 package main
 
 import (
+	"go/types"
 	"fmt"
 	"sort"
 	"strings"
@@ -270,6 +271,53 @@ func c19Extra(s *Session, tier string) (map[string]any, []string) {
 			}
 		}
 	}
+	// The middleware judges the method the request arrived with and chi routes on its own
+	// copy of it: nothing in the API packages may rewrite either after the check.
+	rewrites := 0
+	for _, sp := range s.P.Prog.AllPackages() {
+		path := sp.Pkg.Path()
+		if !strings.HasPrefix(path, ledgerMod+"/internal/api") {
+			continue
+		}
+		seenFn := map[*ssa.Function]bool{}
+		for _, m := range sp.Members {
+			if f, ok := m.(*ssa.Function); ok {
+				withAnon(f, seenFn)
+			}
+		}
+		for f := range seenFn {
+			if strings.HasPrefix(f.Name(), "ZZ_") || strings.HasPrefix(f.Name(), "zz") || (f.Parent() != nil && (strings.HasPrefix(f.Parent().Name(), "ZZ_") || strings.HasPrefix(f.Parent().Name(), "zz"))) {
+				continue // the harnesses build their own requests
+			}
+			for _, b := range f.Blocks {
+				for _, in := range b.Instrs {
+					st, ok := in.(*ssa.Store)
+					if !ok {
+						continue
+					}
+					fa, ok := st.Addr.(*ssa.FieldAddr)
+					if !ok {
+						continue
+					}
+					pt, ok := fa.X.Type().Underlying().(*types.Pointer)
+					if !ok {
+						continue
+					}
+					stt, ok := pt.Elem().Underlying().(*types.Struct)
+					if !ok {
+						continue
+					}
+					owner := pt.Elem().String()
+					field := stt.Field(fa.Field).Name()
+					if (owner == "net/http.Request" && field == "Method") || (strings.HasSuffix(owner, "chi/v5.Context") && (field == "RouteMethod" || field == "methodNotAllowed")) {
+						rewrites++
+						viol = append(viol, fmt.Sprintf("C19: %s rewrites %s.%s after the read-only check has judged the request", f.String(), owner, field))
+					}
+				}
+			}
+		}
+	}
+	ev["method_rewrites_in_api_packages"] = rewrites
 	sort.Strings(routeList)
 	ev["read_routes_examined"] = routes
 	ev["read_routes"] = routeList
